@@ -160,6 +160,14 @@ def main():
     for n in sizes:
         for name, y, x in families(rng, n):
             big.append((name, n, y, x))
+    # one stratum of X with far more than 10^5 rows in which Y has classes that occur once (their share of the stratum is < 1e-5)
+    for n in ([300000] if tier == 'quick' else [300000, 1000000]):
+        xs = [0 if rng.random() < 0.87 else 1 + rng.randrange(4) for _ in range(n)]
+        ys = [rng.randrange(5) for _ in range(n)]
+        for k_, i_ in enumerate(rng.sample(range(n), max(50, n // 700))):
+            ys[i_] = 10 + k_
+        big.append(('dominant-stratum-rare-classes', n, ys, xs))
+        big.append(('constant-x-rare-classes', n, ys, [4] * n))
     req = []
     for name, n, y, x in big:
         req.append([y, x, 1.0, False])
